@@ -7,8 +7,12 @@
 (*   <<"rd", x>>     read the metadata (shape, strides, pending transpose) *)
 (*                   and the data of shared tensor x                       *)
 (*   <<"wr", x, v>>  write metadata word v into shared tensor x            *)
-(*   <<"get", p>> / <<"put", p>>  take / give back an object of pool p     *)
-(*                   (the pools are internally synchronised: atomic)       *)
+(*   <<"get", k, s>> take an object of pool k (a recycled one if the pool   *)
+(*                   holds any, else a new one) into the operation's slot s *)
+(*   <<"put", k, s>> give the object in slot s back to pool k               *)
+(*                   (the pools are internally synchronised: each step is   *)
+(*                   atomic; the OBJECTS are not: whoever holds one uses it *)
+(*                   without further synchronisation)                       *)
 (* The step lists of the operations are the constant OpSteps; the harness  *)
 (* binds them to the code: it runs every operation of the read-only        *)
 (* alphabet alone with the metadata hooks on and compares the recorded     *)
@@ -20,6 +24,9 @@
 (***************************************************************************)
 EXTENDS Integers, Sequences, FiniteSets, TLC
 
+PoolKinds == {"Dense", "Opt", "Header"}
+MaxSlots == 8
+
 CONSTANTS Procs,      \* goroutines
           Shared,     \* shared tensors
           ProgramSet, \* the programs a goroutine may run: a set of sequences of operation names
@@ -29,16 +36,22 @@ VARIABLES Programs,  \* [Procs -> ProgramSet], chosen initially: every assignmen
           pc,        \* [Procs -> <<op index, step index>>]
           meta,      \* [Shared -> Nat]   the metadata word of each shared tensor (0 = as constructed)
           seen,      \* [Procs -> Seq(<<x, value>>)]  what each goroutine's reads returned
-          pool,      \* number of objects in the (single, synchronised) pool
+          pool,      \* [pool kind -> Seq(object)]  the recycled objects lying in each pool
+          slots,     \* [Procs -> [slot -> object]]  the objects the running operation of each goroutine refers to
+          held,      \* [Procs -> SUBSET object]  objects a goroutine has taken and not yet given back
+          nextObj,   \* objects are numbered as they are created
           writers    \* [Shared -> SUBSET Procs]  goroutines that have written x and not yet restored it
 
-vars == <<Programs, pc, meta, seen, pool, writers>>
+vars == <<Programs, pc, meta, seen, pool, slots, held, nextObj, writers>>
 
 Init == /\ Programs \in [Procs -> ProgramSet]
         /\ pc = [p \in Procs |-> <<1, 1>>]
         /\ meta = [x \in Shared |-> 0]
         /\ seen = [p \in Procs |-> <<>>]
-        /\ pool = 0
+        /\ pool = [k \in PoolKinds |-> <<>>]
+        /\ slots = [p \in Procs |-> <<>>]
+        /\ held = [p \in Procs |-> {}]
+        /\ nextObj = 1
         /\ writers = [x \in Shared |-> {}]
 
 Done(p) == pc[p][1] > Len(Programs[p])
@@ -49,21 +62,29 @@ Step(p) ==
     /\ ~Done(p)
     /\ Len(CurSteps(p)) > 0
     /\ LET s == CurSteps(p)[pc[p][2]]
+           SlotOf(q, k) == IF k \in DOMAIN slots[q] THEN slots[q][k] ELSE 0
        IN CASE s[1] = "rd"  -> /\ seen' = [seen EXCEPT ![p] = Append(@, <<s[2], meta[s[2]]>>)]
-                               /\ UNCHANGED <<meta, pool, writers>>
+                               /\ UNCHANGED <<meta, pool, slots, held, nextObj, writers>>
             [] s[1] = "wr"  -> /\ meta' = [meta EXCEPT ![s[2]] = s[3]]
                                /\ writers' = [writers EXCEPT ![s[2]] = IF s[3] = 0 THEN @ \ {p} ELSE @ \cup {p}]
-                               /\ UNCHANGED <<seen, pool>>
-            [] s[1] = "get" -> /\ pool' = IF pool > 0 THEN pool - 1 ELSE 0
-                               /\ UNCHANGED <<meta, seen, writers>>
-            [] s[1] = "put" -> /\ pool' = pool + 1
-                               /\ UNCHANGED <<meta, seen, writers>>
+                               /\ UNCHANGED <<seen, pool, slots, held, nextObj>>
+            [] s[1] = "get" -> LET recycled == pool[s[2]] # <<>>
+                                   o == IF recycled THEN Head(pool[s[2]]) ELSE nextObj
+                               IN /\ pool' = IF recycled THEN [pool EXCEPT ![s[2]] = Tail(@)] ELSE pool
+                                  /\ nextObj' = IF recycled THEN nextObj ELSE nextObj + 1
+                                  /\ slots' = [slots EXCEPT ![p] = [k \in 1..MaxSlots |-> IF k = s[3] THEN o ELSE SlotOf(p, k)]]
+                                  /\ held' = [held EXCEPT ![p] = @ \cup {o}]
+                                  /\ UNCHANGED <<meta, seen, writers>>
+            [] s[1] = "put" -> LET o == SlotOf(p, s[3])
+                               IN /\ pool' = [pool EXCEPT ![s[2]] = Append(@, o)]     \* also when the object is not held any more
+                                  /\ held' = [held EXCEPT ![p] = @ \ {o}]
+                                  /\ UNCHANGED <<meta, seen, slots, nextObj, writers>>
     /\ pc' = [pc EXCEPT ![p] = Advance(p)]
     /\ UNCHANGED Programs
 
 Skip(p) == /\ ~Done(p) /\ Len(CurSteps(p)) = 0
            /\ pc' = [pc EXCEPT ![p] = <<pc[p][1] + 1, 1>>]
-           /\ UNCHANGED <<Programs, meta, seen, pool, writers>>
+           /\ UNCHANGED <<Programs, meta, seen, pool, slots, held, nextObj, writers>>
 
 Next == \E p \in Procs : Step(p) \/ Skip(p)
 Spec == Init /\ [][Next]_vars
@@ -76,6 +97,12 @@ SharedNeverWritten == \A x \in Shared : meta[x] = 0 /\ writers[x] = {}
 ResultsSequential ==
     \A p \in Procs : \A i \in 1..Len(seen[p]) :
         seen[p][i][2] = 0 \/ (\E q \in {p} : q \in writers[seen[p][i][1]])
+
+(* a pooled object (option struct, scalar header, tensor struct) is never in the hands of two goroutines, and never
+   lies in a pool while a goroutine still holds it: else one goroutine's options / scalar reach another's call *)
+PoolExclusive ==
+    /\ \A p, q \in Procs : p # q => held[p] \cap held[q] = {}
+    /\ \A k \in PoolKinds : \A i, j \in 1..Len(pool[k]) : i # j => pool[k][i] # pool[k][j]
 
 (* a read of x while ANOTHER goroutine has x modified: the race *)
 NoReadDuringForeignWrite ==
